@@ -71,10 +71,23 @@ Theorem C04_pd_branch_optimal : forall (items0 : list kitem) (cap : Q),
 Proof. exact pd_branch_optimal. Qed.
 Print Assumptions C04_pd_branch_optimal.
 
-(* M maxwelfare_pd_optimal: the PRIMAL_DUAL rule (zero-cost pre-selection + knapsack) always returns, and
-   its result is feasible, extends the initial allocation and has maximum welfare among ALL feasible
-   allocations extending the initial one -- any number of projects, any non-negative rational costs and
-   satisfactions, any iteration order of the instance *)
+(* M maxwelfare_pd_optimal, at full strength: the PRIMAL_DUAL rule (zero-cost pre-selection, projects of
+   negative total satisfaction left out, knapsack) always returns, and its result is feasible, extends the
+   initial allocation and has maximum welfare among ALL feasible allocations extending the initial one -- any
+   number of projects, any non-negative rational costs, ANY rational satisfactions (negative and mixed-sign
+   included, e.g. cardinal ballots with negative scores), any iteration order of the instance *)
+Theorem C04_maxwelfare_pd_optimal_any_scores : forall (I : inst) (score : list Q) (enum init : list proj),
+  Forall (fun c => 0 <= c) (costs I) ->
+  NoDup enum -> (forall p, In p enum <-> (p < nproj I)%nat) ->
+  NoDup init -> incl init enum -> tcost I init <= budget I ->
+  exists res, maxwelfare_pd I score enum init = Some res /\
+    feasible I res /\ incl init res /\
+    (forall W', feasible I W' -> incl init W' -> welfare score W' <= welfare score res).
+Proof. exact maxwelfare_pd_optimal_gen. Qed.
+Print Assumptions C04_maxwelfare_pd_optimal_any_scores.
+
+(* the same with the (superfluous) hypothesis of non-negative satisfactions -- the signature used by
+   Props/C01.v and Proofs/InvarianceKnapsackP.v *)
 Theorem C04_maxwelfare_pd_optimal : forall (I : inst) (score : list Q) (enum init : list proj),
   Forall (fun c => 0 <= c) (costs I) -> Forall (fun s => 0 <= s) score ->
   NoDup enum -> (forall p, In p enum <-> (p < nproj I)%nat) ->
@@ -273,7 +286,11 @@ Example C04_nonvacuous :
   check (mkCase (costs I) 1 score [2; 4; 0; 3; 1]%nat [] 0 [[0; 1; 3]%nat]) = [] /\
   check (mkCase (costs I) 1 score [2; 4; 0; 3; 1]%nat [] 0 [[2; 3]%nat]) = [4; 6]%nat /\
   check (mkCase (costs I) 1 score [2; 4; 0; 3; 1]%nat [] 2 [[3; 1; 0]%nat; [0; 1; 3; 4]%nat]) = [] /\
-  check (mkCase (costs I) 1 score [2; 4; 0; 3; 1]%nat [] 2 [[3; 1; 0]%nat]) = [5]%nat.
+  check (mkCase (costs I) 1 score [2; 4; 0; 3; 1]%nat [] 2 [[3; 1; 0]%nat]) = [5]%nat /\
+  (* negative total satisfaction (costs 1, 1, budget 2, one cardinal ballot {a: -3, b: 3}): only b is taken *)
+  maxwelfare_pd (mkInst [1; 1] 2) [-(3); 3] [0; 1]%nat [] = Some [1]%nat /\
+  bf_optima (mkInst [1; 1] 2) [-(3); 3] [] = [[1]%nat] /\
+  check (mkCase [1; 1] 2 [-(3); 3] [0; 1]%nat [] 0 [[]]) = [4; 6]%nat.
 Proof.
   cbv zeta. split; [repeat constructor; discriminate|]. split; [repeat constructor; discriminate|].
   vm_compute. repeat split; reflexivity.
